@@ -967,7 +967,10 @@ class Angle(object):
         """
 
         if isinstance(b, (int, float)):
-            b = Angle(b)
+            # The modulo is taken on the number itself: reducing it to an
+            # Angle first changes the result when abs(b) >= 360
+            sign = 1.0 if b >= 0.0 else -1.0
+            return Angle(sign * (abs(b) % self._deg))
         # Negative values will be treated as if they were positive
         sign = 1.0 if b._deg >= 0.0 else -1.0
         return Angle(sign * (abs(b._deg) % self._deg))
